@@ -225,3 +225,11 @@ Fixpoint mon_run_from (c : cfg) (mo : mon) (tr : list (event * out)) : mon :=
   end.
 
 Definition mon_run (c : cfg) (tr : list (event * out)) : mon := mon_run_from c mon0 tr.
+
+(* number of loop iterations (re-arms) of context [id] in a trace *)
+Fixpoint rearms (id : nat) (tr : list (event * out)) : nat :=
+  match tr with
+  | [] => 0
+  | (Fire i _, ORearm _) :: r => if Nat.eqb i id then S (rearms id r) else rearms id r
+  | _ :: r => rearms id r
+  end.
